@@ -32,6 +32,10 @@ MUTATIONS = [
     ("C19", "output.py", "if year_hour_sum + hours_in_year[idx] - 1 >= hours_left:", "if year_hour_sum + hours_in_year[idx] >= hours_left:", "month label off by one at month ends"),
     ("C13", "ground_heat_exchangers.py", "            self.times = np.arange(1, n_hours + 1, 1)\n", "            if len(self.times) == 0:\n                self.times = np.arange(1, n_hours + 1, 1)\n", "hourly axis only built when empty"),
     ("C14", "rowwise.py", "        if len(hole) > max_l:", "        if len(hole) >= max_l:", "rotation sweep keeps the last maximum"),
+    ("C15", "borehole_heat_exchangers.py", "(TWO_PI * self.pipe.k[1])", "(TWO_PI * self.pipe.k[0])", "coaxial outer pipe wall uses the inner pipe's conductivity"),
+    ("C18", "validate.py", 'str(instance["fluid_name"]).upper()', 'str(instance.get("fluid_name", "Water")).upper()', "missing fluid_name defaulted before the schema check"),
+    ("C02", "search_routines.py", "        if len(coordinates_domain) == 0:\n", "        if False:\n", "empty candidate domain no longer reported as ValueError (F23 returns)"),
+    ("C07", "ground_loads.py", "            load_diff = self.monthly_peak_hl[i] - max(current_two_day_hl_load)\n", "", "extraction window scaled with the rejection window's load_diff (PeakScale)"),
 ]
 
 
